@@ -89,12 +89,33 @@ chk("C12", "exploration",
 
 chk("C13", "exploration",
     "Metamorphic rewrites (alpha-renaming with sites from an independent scope resolver, permutation of declarations and members, wrapping an expression in ( ) or { }, inserting the inferred type as let / lambda-parameter annotation, inserting inferred type arguments) are applied to accepted generator programs, rejected variants and the repository's samples; the checker's verdict must not flip and, for accepted programs, the reference interpreter's trace must not change.",
-    "Each rewrite is meaning preserving by the language definition; inferred types are only spliced when all named classes are visible; splitting a module is not implemented; sites are sampled.",
+    "Each rewrite is meaning preserving by the language definition; inferred types are only spliced when all named classes are visible; sites are sampled.",
     "runtime monitoring: metamorphic relation oracle over generated rewrites", "DESIGN.md §4 C13")
 chk("C15", "exploration",
     "For random local bindings of generator programs and sample programs an independent scope resolver gives the defining occurrence(s) and all uses; go-to-definition and find-references are queried at every occurrence (two positions each) and must return exactly those; rename through a random occurrence to a fresh name must parse, keep the diagnostics, keep the occurrence count and the reference-interpreter trace, and renaming back must restore the formatted original.",
     "Trusts the independent resolver (written from the spec's scoping rules); bindings are sampled.",
     "runtime monitoring: ground-truth oracle (independent scope resolver) + metamorphic rename round trip", "DESIGN.md §4 C15")
+
+# what was added to each check after the first registration (see DESIGN.md §4 and §8)
+ADDED = {
+ "C01": " Also run: the reproducers under findings/ as a fixed regression workload, a counted-loop family aimed at the loop optimizer, operator tables with literal operands, and string-literal tables enumerating every sequence of up to three 'atoms' (escapes, quote, backslash, backtick, $, {, letters that follow a backslash, non-ASCII). When a node >= 22 is installed (this image has one under ~/.nvm) every emitted module is additionally run by V8 with the emitted loader; the property is judged with both engines and a disagreement between them is reported as inconclusive.",
+ "C02": " One third of the programs come from a counted-loop family (every guard operator in both operand orders, strides of both signs up to 10^9, bounds and start values near the 32-bit limits, derived induction variables unused / let-bound / passed directly); a failing loop configuration is attributed by interventions through hooks (one loop sub-pass off; guard operator of the eliminated induction variable corrected) and by whether the delta-debugged program wraps around 32 bits.",
+ "C03": " The emitted module is also run by V8 when a node >= 22 is installed; every fourth generated program is in addition compiled with a second entry point whose code calls the first entry's main (no panic, valid module, no engine fault in either entry).",
+ "C04": " The emitted TypeScript is also run unmodified with --experimental-strip-types and the wasm by V8 when a node >= 22 is installed; a fault or untokenisable output on one back end only counts as a disagreement; string-literal atom tables and literal operator tables are part of the workload.",
+ "C05": " Also: width ladders around the parser's size limits (tuples, arguments, parameters, fields, variants, type arguments, patterns of 0..300 elements) and modules full of binding constructs with ill-formed patterns (arity, duplicate / unknown fields). A drive is stopped after 6 (quick) / 24 stalled inputs; the first three are re-run alone.",
+ "C06": " Further fault operators: or-pattern alternatives that bind an extra in-scope name or a different name; complete pattern matrices (tuple / struct in any field order / variant payload over 2-3 small enums) with each single arm removed and as refutable let; one ill-formed pattern (extra / missing sub-pattern, duplicate or unknown field, tuple arity) in a module of binding constructs.",
+ "C08": " Also: all depth-3 nestings (outer, middle, inner, both parenthesisation flags: about 800 000), random fully parenthesised operator trees of depth 2-5, and every string literal of up to three atoms.",
+ "C10": " Document shapes include a construct zoo (every syntactic construct once).",
+ "C11": " Documents include a construct zoo in which every syntactic construct occurs once with identifiers longer than 15 bytes that often have a single occurrence (unused binders, names only in patterns).",
+ "C12": " Rejected programs include a diagnostic zoo (messages assembled from sets / maps: several equally good counterexamples, binder sets of or-patterns, missing members, cyclic definitions); a third of the accepted programs are compiled with two entry points, one reachable from the other.",
+ "C13": " A ninth rewrite moves a class into a new module (imports adjusted in every importer); a fifth of the bases are binder-zoo modules whose every binding is renamed in turn.",
+ "C14": " A share of the texts are binder-zoo modules (every binder form in every binding construct, partially annotated lambdas).",
+ "C15": " A quarter of the modules are binder-zoo modules (shorthand / renamed fields inside or-pattern alternatives, names reused in disjoint scopes, partially annotated lambdas).",
+ "C16": " Layouts include the next item on the import's line, a multi-line comment starting there, no final newline, CRLF, imports over several lines and the exporting module already imported for another class; a completion item for the unresolved class is checked even when it carries no edit.",
+ "C17": " With the hook compiled in the model also follows the statement literally: a slot marked since the sweeper last passed over it (slot id and cursor read through the hook) must survive the pass, and the cursor after each call is checked.",
+}
+for pid, extra in ADDED.items():
+    CHECKS[pid]["level_claimed"]["text"] += extra
 
 NA_REASON = "check under construction in this round (machinery not yet registered)"
 m = {
@@ -104,7 +125,7 @@ m = {
    "guard": "--cfg samlang_verif",
    "enable": "RUSTFLAGS='--cfg samlang_verif' cargo build --release --offline (the harness path-depends on /repo/crates/*, so /repo's working tree is rebuilt with hooks on)",
    "baseline_off_cmd": "cd /repo && cargo test --workspace --no-fail-fast --offline",
-   "source_commits": ["ef9c61d", "74255b3", "c496234"],
+   "source_commits": ["ef9c61d", "74255b3", "c496234", "45682cc"],
    "add_only": True,
  },
  "engines": [
